@@ -103,7 +103,7 @@ pub fn apply_member(s: &mut SchemaSet, p: &MemberProd, types: &[(String, TypeRef
                 seq.max = OCCS[*occ].1;
                 seq.items.push(el(&name, types[*ty].1.clone()));
             } else {
-                seq.items.push(Particle::Seq(Seq { min: OCCS[*occ].0, max: OCCS[*occ].1, items: vec![el(&name, types[*ty].1.clone())] }));
+                seq.items.push(Particle::Seq(Seq { min: OCCS[*occ].0, max: OCCS[*occ].1, items: vec![el(&name, types[*ty].1.clone())], doc: None }));
             }
         }
         MemberProd::ExplicitOne { ty, occ } => {
@@ -115,17 +115,17 @@ pub fn apply_member(s: &mut SchemaSet, p: &MemberProd, types: &[(String, TypeRef
                 seq.max = OCCS[*occ].1;
                 seq.items.push(Particle::Elem(e));
             } else {
-                seq.items.push(Particle::Seq(Seq { min: OCCS[*occ].0, max: OCCS[*occ].1, items: vec![Particle::Elem(e)] }));
+                seq.items.push(Particle::Seq(Seq { min: OCCS[*occ].0, max: OCCS[*occ].1, items: vec![Particle::Elem(e)], doc: None }));
             }
         }
         MemberProd::Attr { ty, required } => h.attrs.push(Attr { name: format!("attr{k}"), ty: types[*ty].1.clone(), required: *required, value_constraint: None }),
         MemberProd::Ref { target, occ } => {
             let ns = if target.ends_with("B") { NS_B } else { NS_A };
-            h.seq.as_mut().unwrap().items.push(Particle::Ref(ElemRef { target: QName::new(ns, target), min: OCCS[*occ].0, max: OCCS[*occ].1 }));
+            h.seq.as_mut().unwrap().items.push(Particle::Ref(ElemRef { target: QName::new(ns, target), min: OCCS[*occ].0, max: OCCS[*occ].1, xmlns: vec![] }));
         }
         MemberProd::RefInChoice { target } => {
             let ns = if target.ends_with("B") { NS_B } else { NS_A };
-            h.seq.as_mut().unwrap().items.push(Particle::Choice(vec![Particle::Ref(ElemRef { target: QName::new(ns, target), min: 1, max: Max::N(1) }), el(&format!("Alt{k}"), TypeRef::b("string"))]));
+            h.seq.as_mut().unwrap().items.push(Particle::Choice(vec![Particle::Ref(ElemRef { target: QName::new(ns, target), min: 1, max: Max::N(1), xmlns: vec![] }), el(&format!("Alt{k}"), TypeRef::b("string"))]));
         }
         MemberProd::AttrConstrained { fixed } => {
             h.attrs.push(Attr { name: format!("attr{k}"), ty: TypeRef::b("string"), required: false, value_constraint: Some((*fixed, "EUR".into())) });
@@ -204,7 +204,7 @@ pub fn component_states() -> Vec<State> {
         let w = s.wsdl.as_mut().unwrap();
         let q = |n: &str| QName::new(NS_W, n);
         w.schema.comps.insert(0, Comp::Complex(ComplexType { name: "EarlyDerived".into(), base: Some(q("LateBase")), seq: Some(Seq::of(vec![el("OwnEarly", TypeRef::b("string"))])), ..Default::default() }));
-        w.schema.comps.insert(1, complex("EarlyBasket", vec![Particle::Ref(ElemRef { target: q("LateSerial"), min: 1, max: Max::N(1) }), Particle::Ref(ElemRef { target: q("LateAnon"), min: 0, max: Max::N(1) })]));
+        w.schema.comps.insert(1, complex("EarlyBasket", vec![Particle::Ref(ElemRef { target: q("LateSerial"), min: 1, max: Max::N(1), xmlns: vec![] }), Particle::Ref(ElemRef { target: q("LateAnon"), min: 0, max: Max::N(1), xmlns: vec![] })]));
         w.schema.comps.push(Comp::Complex(ComplexType { name: "LateBase".into(), seq: Some(Seq::of(vec![el("InLateBase", TypeRef::b("long"))])), attrs: vec![Attr { name: "lateAttr".into(), ty: TypeRef::b("string"), required: false, value_constraint: None }], ..Default::default() }));
         w.schema.comps.push(typed_element("LateSerial", TypeRef::b("unsignedLong")));
         w.schema.comps.push(anon_element("LateAnon", vec![el("InLateAnon", TypeRef::b("string"))]));
@@ -229,10 +229,41 @@ pub fn component_states() -> Vec<State> {
         s.files[0].comps.push(Comp::Complex(ComplexType {
             name: "DerivedUnprefixed".into(),
             base: Some(bare("Leaf")),
-            seq: Some(Seq::of(vec![el("Own", TypeRef::Named(bare("Code"))), Particle::Ref(ElemRef { target: bare("Note"), min: 0, max: Max::N(1) })])),
+            seq: Some(Seq::of(vec![el("Own", TypeRef::Named(bare("Code"))), Particle::Ref(ElemRef { target: bare("Note"), min: 0, max: Max::N(1), xmlns: vec![] })])),
             ..Default::default()
         }));
         out.push(State { label: "add complexType with unprefixed base/type/ref under a default namespace (same local names in the imported namespace)".into(), depth: 1, set: s });
+    }
+    // documentation where real schemas put it: an <xs:annotation> as the first child of a sequence,
+    // and of an extension
+    {
+        let mut s = seed();
+        let mut seq = Seq::of(vec![el("First", TypeRef::b("string")), el_occ("Second", TypeRef::b("int"), 0, Max::N(1))]);
+        seq.doc = Some("what the members mean".into());
+        s.files[0].comps.push(Comp::Complex(ComplexType { name: "AnnotatedSequence".into(), seq: Some(seq.clone()), ..Default::default() }));
+        s.files[0].comps.push(Comp::Complex(ComplexType { name: "AnnotatedExtension".into(), base: Some(QName::new(NS_A, "Leaf")), seq: Some(seq), attrs: vec![Attr { name: "k".into(), ty: TypeRef::b("string"), required: false, value_constraint: None }], ..Default::default() }));
+        holder_mut(&mut s).seq = Some(Seq::of(vec![el("UsesAnnotated", TypeRef::n(NS_A, "AnnotatedSequence")), el("UsesAnnotatedExtension", TypeRef::n(NS_A, "AnnotatedExtension"))]));
+        out.push(State { label: "add types with an annotation inside the sequence and inside the extension".into(), depth: 1, set: s });
+    }
+    // a global element of THIS namespace that is of a type of the OTHER namespace with the same local
+    // name (messages namespace / types namespace layouts do this), used through ref=
+    {
+        let mut s = seed();
+        s.files[0].comps.push(typed_element("LeafB", TypeRef::n(NS_B, "LeafB")));
+        holder_mut(&mut s).seq = Some(Seq::of(vec![Particle::Ref(ElemRef { target: QName::new(NS_A, "LeafB"), min: 0, max: Max::N(1), xmlns: vec![] }), el("Direct", TypeRef::n(NS_B, "LeafB"))]));
+        out.push(State { label: "add global element named like its type of the other namespace, used through ref=".into(), depth: 1, set: s });
+    }
+    // user-defined types that carry the local name of a builtin (`a:time`, `a:language`, `a:string`):
+    // the prefix says which namespace is meant
+    for (name, complex_ty) in [("time", true), ("date", false), ("language", false), ("string", true), ("int", false), ("duration", true)] {
+        let mut s = seed();
+        if complex_ty {
+            s.files[0].comps.push(complex(name, vec![el("Hours", TypeRef::b("int")), el("Minutes", TypeRef::b("int"))]));
+        } else {
+            s.files[0].comps.push(simple(name, "string", vec![("maxLength", "7")]));
+        }
+        holder_mut(&mut s).seq = Some(Seq::of(vec![el("UsesUserType", TypeRef::n(NS_A, name)), el_occ("UsesBuiltin", TypeRef::b(name), 0, Max::N(1))]));
+        out.push(State { label: format!("add user type named like the builtin `{name}` and members of both"), depth: 1, set: s });
     }
     // the XML Schema namespace as the default namespace of every file (<schema xmlns="…/XMLSchema">,
     // <element>, type="string"): the same documents in a common other spelling
@@ -350,15 +381,17 @@ pub fn states(tier: &str) -> Vec<State> {
                 // outside the subset (DESIGN section 2): an occurrence on an OUTER sequence combined with a
                 // nested sequence / choice (occurrences sit on the element and its immediately enclosing
                 // sequence only); two refs to one global element in one type (duplicate member names)
-                let a_outer = matches!(a, MemberProd::SeqOcc { .. } | MemberProd::ExplicitOne { .. });
-                let b_inner = matches!(b, MemberProd::SeqOcc { .. } | MemberProd::ExplicitOne { .. }) || matches!(b, MemberProd::Elem { ctx, .. } if *ctx != "sequence");
-                if a_outer && b_inner {
+                let outer = |x: &MemberProd| matches!(x, MemberProd::SeqOcc { .. } | MemberProd::ExplicitOne { .. });
+                let inner = |x: &MemberProd| matches!(x, MemberProd::SeqOcc { .. } | MemberProd::ExplicitOne { .. } | MemberProd::RefInChoice { .. }) || matches!(x, MemberProd::Elem { ctx, .. } if *ctx != "sequence");
+                if (outer(a) && inner(b)) || (outer(b) && inner(a)) {
                     continue;
                 }
-                if let (MemberProd::Ref { target: ta, .. }, MemberProd::Ref { target: tb, .. }) = (a, b) {
-                    if ta == tb {
-                        continue;
-                    }
+                let target = |x: &MemberProd| match x {
+                    MemberProd::Ref { target, .. } | MemberProd::RefInChoice { target } => Some(*target),
+                    _ => None,
+                };
+                if target(a).is_some() && target(a) == target(b) {
+                    continue;
                 }
                 let mut s = seed();
                 apply_member(&mut s, a, &types, 1);
@@ -416,6 +449,8 @@ pub fn check(tier: &str) -> i32 {
         }
         rep.sample(json!({"production": st.label, "holder_fields": ex.structs.iter().find(|s| s.name == "Holder").map(|h| h.fields.iter().map(|f| format!("{}: {}", f.ident, f.ty.text)).collect::<Vec<_>>()), "violations": vs.len()}));
         for v in vs {
+            // where the documentation sits decides whether the component is read at all (F-C02-2)
+            let v = if st.label.contains("annotation inside the sequence") { v.ctx("documentation.position", "first-child-of-sequence-or-extension") } else { v };
             agg.add(v.case(case_json(st)));
         }
     }
